@@ -470,6 +470,12 @@ def fault_oracle(case_text, real_lines, header):
             results[int(m.group(1))] = m.group(3)
         if l.startswith("X "):
             fails.append(("nofail", f"{header}: process {l[2:]}"))
+    fault_call = next((l[8:] for l in real_lines if l.startswith("T FAULT ")), "")
+    # a transaction that did not commit must not leave its staging file behind (unless the injected
+    # error hit the removal of that very file)
+    stag = sorted({l.split()[2] for l in real_lines if l.startswith("O F staging/")})
+    if stag and not fault_call.startswith("unlink staging/"):
+        fails.append(("staging_leftover", f"{header}: staging files left behind {stag} (injected fault: {fault_call})"))
     # possible values per key: set of contents (None = absent)
     poss = {}
     def cur(k):
@@ -500,21 +506,20 @@ def fault_oracle(case_text, real_lines, header):
             elif res == "ok:false":
                 if None not in cur(k):
                     fails.append(("contained", f"{header}: op {i} `{l}` = false but key was present"))
-                poss[k] = {None}
+                # nothing is logged by a remove that finds nothing: an earlier failed put of this key may
+                # still become durable, so the uncertainty (old or new) stays
+                poss[k] = cur(k) | {None}
             else:
                 poss[k] = cur(k) | {None}
         elif op == "remove_range":
             ks = [k for k in poss if in_range(kt, t[1], t[2], k)]
             for k in ks:
-                poss[k] = {None} if res.startswith("ok:") else cur(k) | {None}
+                poss[k] = {None} if (res.startswith("ok:") and len(cur(k)) == 1) else cur(k) | {None}
         elif op in ("get", "reader"):
             k = unhex(t[1])
             allowed = {("none" if c is None else "bytes:" + show_content(c)) for c in cur(k)}
             if res not in allowed:
                 fails.append(("contained", f"{header}: op {i} `{l}` = {res}, allowed {sorted(allowed)}"))
-            elif len(cur(k)) > 1:
-                # the observation resolves the uncertainty
-                poss[k] = {c for c in cur(k) if ("none" if c is None else "bytes:" + show_content(c)) == res}
         elif op == "open":
             if not res.startswith("opened"):
                 # an open hit by the fault itself may fail; the next open (no more faults) must work
